@@ -242,6 +242,11 @@ def _store_array(
     identity = lambda a: a
     blockwise_kwargs = blockwise_kwargs or {}
     if region is None or all(r == slice(None) for r in region):
+        target_shape = getattr(target, "shape", None)
+        if target_shape is not None and tuple(target_shape) != source.shape:
+            raise ValueError(
+                f"Source array shape {source.shape} does not match target shape {tuple(target_shape)}"
+            )
         if not isinstance(source._zarray, LazyZarrArray):
             ind = tuple(range(source.ndim))
             return blockwise(
